@@ -1054,6 +1054,32 @@ func SpecContains(s string, sub string) bool { return false }
 //@   ensures the_seed_is_chosen_after_consulting_the_root_checkpoint: result1 == nil ==> result0 != nil && rootReads == old(rootReads) + 1
 //@   ensures the_seed_is_not_behind_the_root_checkpoint: result1 == nil && checkpoint.matchRun(rootRun, ids) ==> result0.Offset >= rootOff
 
+// ---- leaving a bidirectional namespace (bisyncEnabled switched off): the live position is in the
+// ---- mode specific records, the rename reads the root only (C17)
+//   modeSeedOff  the position found in the mode specific records (-1: none)
+//   rootWrites   checkpoint records written by this call
+//@ func checkpoint.LoadBisyncNamespaceMode(cli, checkpointName) (mode, ok, err)
+//@   trusted abstract target: one HGET of the namespace's mode marker
+//@   modifies nothing
+//@ func syncer.loadBisyncModeSeed(self, cli, checkpointName, ids, currentMode, recoverySlots) (seed, err)
+//@   trusted by reading: reads the latest records, or frontier and journal, of the namespace (their readers are decided under C14); the ids are only read
+//@   modifies heap, startSeq, startPinned
+//@   ensures the_ids_are_only_read: len(ids) == old(len(ids)) && (forall i int :: 0 <= i && i < len(ids) ==> ids[i] == old(ids[i]))
+//@ func syncer.carryBisyncPosition
+//@   arith int
+//@   properties C17
+//@   replay syncer_bisyncOffRename
+//@   ghost var modeSeedOff mathint = 0 - 1
+//@   ghost var rootWrites mathint = 0
+//@   requires nonnil: cli != nil && s != nil
+//@   modifies heap, curDb, cpDb, rootReads, rootOff, rootRun, phase, startSeq, startPinned, modeSeedOff, rootWrites, replayFailed
+//@   set modeSeedOff = ite(result1 == nil && result0 != nil, result0.Offset, 0 - 1) after call loadBisyncModeSeed
+//@   set phase = 0 at call SelectDB
+//@   set rootWrites = rootWrites + 1 at call SetCheckpoint
+//@   assert at call SetCheckpoint: what_is_stored_at_the_root_is_the_live_position_of_that_name: cp != nil && cp.Offset == modeSeedOff && cp.Key == checkpointName
+//@   ensures the_ids_are_only_read: len(ids) == old(len(ids)) && (forall i int :: 0 <= i && i < len(ids) ==> ids[i] == old(ids[i]))
+//@   ensures the_root_a_rename_reads_is_not_left_behind_the_live_position: result == nil && modeSeedOff >= 0 ==> rootWrites == old(rootWrites) + 1 || rootOff >= modeSeedOff
+
 // ---- withdrawing the resume position before a snapshot is applied (C04) ------------------------
 //   delCalls  number of DelCheckpoint requests (every database of the target) issued
 //@ func RedisOutput.invalidateCheckpoint$1
@@ -1156,10 +1182,14 @@ func SpecRdbBuffered(r *memoryRdb) int64 { panic("abstract spec function") }
 //@   ensures connected: err == nil ==> cli != nil
 //@ func syncer.updateCheckpoint$1
 //@   arith int
-//@   properties C06
-//@   replay syncer_rekeyPsync
-//@   modifies heap, curDb, cpDb, phase, replayFailed, rootReads, rootOff, rootRun, lastHashName, lastHashRun
+//@   properties C06 C17
+//@   replay syncer_rekeyPsync syncer_bisyncOffRename
+//@   modifies heap, curDb, cpDb, phase, replayFailed, rootReads, rootOff, rootRun, lastHashName, lastHashRun, carried, startSeq, startPinned
 //@   assert at call UpdateCheckpoint: start_up_keeps_the_run_id_a_position_is_filed_under: lastHashName == "" || lastHashRun == "" || (len(arg2) >= 1 && arg2[0] == lastHashRun)
+//   carried  1 once the live position of the name that is being left has been stored at its root
+//@   ghost var carried mathint = 0
+//@   set carried = ite(result == nil, 1, 0) after call carryBisyncPosition
+//@   assert at call UpdateCheckpoint: a_name_that_is_left_has_had_its_live_position_stored_at_the_root_the_rename_reads [C17]: lastHashName == "" || lastHashName == localCheckpoint || carried == 1
 
 // ---- a position the source has just refused to continue is withdrawn, never relabelled (C06) ----
 //@ func Output.SetRunId(self, ctx, runId) (err)
